@@ -163,7 +163,26 @@ UNIT = Unit()
 PHANTOM = Phantom()
 
 
+class MatElem:
+    """the generic element of a matrix as a place"""
+    def __init__(self, m):
+        self.m = m
+
+
+def fn_n(d, name, *vals):
+    """n-ary opaque function as a unary one over an injective linear encoding of its arguments"""
+    if len(vals) == 1:
+        return d.fn(name, vals[0])
+    acc = None
+    for i, v in enumerate(vals):
+        t = d.mul(v, d.named("#%d" % (i + 1)))
+        acc = t if acc is None else d.add(acc, t)
+    return d.fn(name, acc)
+
+
 def place_get(c, k):
+    if isinstance(c, MatElem):
+        return Sc(c.m.p)
     if isinstance(c, list):
         return c[k]
     if isinstance(c, Rec):
@@ -176,6 +195,12 @@ def place_get(c, k):
 
 
 def place_set(c, k, v):
+    if isinstance(c, MatElem):
+        v = unref(v)
+        if not isinstance(v, Sc):
+            raise Unsupported("matrix element assignment of %r" % (v,))
+        c.m.p = v.v
+        return
     if isinstance(c, list):
         c[k] = v
     elif isinstance(c, Rec):
@@ -497,6 +522,27 @@ class Interp:
                 return PHANTOM
             self.unsupported("nullary call %s" % path, e)
         x = a[0]
+        if name in ("replace", "replace_unchecked") and isinstance(args[0], Ref) and isinstance(x, Sc) and len(a) == 3 \
+                and path.endswith("SimdValue::" + name):
+            args[0].set(Sc(fn_n(d, "%s@%s" % (name, d.show(a[1].v)), x.v, a[2].v)))
+            return UNIT
+        if path == "std::mem::replace" and isinstance(args[0], Ref):
+            old_v = args[0].get()
+            args[0].set(args[1])
+            return old_v
+        if path.endswith("MaybeUninit::<T>::new") or path.endswith("MaybeUninit::new"):
+            return args[0]
+        if name in ("any", "all") and isinstance(x, IterV) and len(args) == 2:
+            res = (name == "all")
+            for item in x.items:
+                r = unref(self.call_closure(unref(args[1]), [item], e))
+                if not isinstance(r, BoolV):
+                    self.unsupported("%s predicate" % name, e)
+                if name == "any" and r.b:
+                    return BoolV(True)
+                if name == "all" and not r.b:
+                    return BoolV(False)
+            return BoolV(res)
         # ---- Option / Result combinators
         if isinstance(x, Opt) and (path.startswith("std::option::Option") or path.startswith("core::option::Option")):
             return self.option_method(name, x, args, e)
@@ -591,12 +637,20 @@ class Interp:
         if name in ("to_subset", "from_superset"):
             ok = self.decide(("subset", d.key(x.v)), "is_in_subset(%s)" % d.show(x.v))
             return Opt(True, x) if ok else Opt(False)
-        if name in ("splat", "extract", "extract_unchecked") :
-            return x
+        if name == "splat" and not rest:
+            return Sc(fn_n(d, "splat", x.v))
+        if name in ("extract", "extract_unchecked") and len(rest) == 1 and isinstance(rest[0], Sc):
+            return Sc(fn_n(d, "%s@%s" % (name, d.show(rest[0].v)), x.v))
         if name == "select" and len(rest) == 2:
             c = rest[0]
             if isinstance(c, BoolV):
                 return x if c.b else rest[1]
+            if isinstance(c, Sc) and isinstance(rest[1], Sc):
+                return Sc(fn_n(d, "select@%s" % d.show(c.v), x.v, rest[1].v))
+        if name in ("all", "none", "any") and not rest and "SimdBool" in path:
+            return BoolV(self.decide(("simdbool", name, d.key(x.v)), "%s.%s()" % (d.show(x.v), name)))
+        if name == "not" and not rest:
+            return Sc(d.fn("not", x.v))
         if name == "to_string":
             return StrV("<%s>" % d.show(x.v))
         if name in ("unwrap",):
@@ -706,6 +760,33 @@ class Interp:
             if isinstance(r, Sc):
                 return Mat(r.v, x.shape)
             self.unsupported("Matrix::map closure result %r" % (r,), e)
+        if name in ("zip_apply", "apply") and rest:
+            clo = unref(rest[-1])
+            cell = [Sc(x.p)]
+            cargs = [Ref(cell, 0)]
+            if name == "zip_apply":
+                other = unref(rest[0])
+                if not isinstance(other, Mat) or other.shape != x.shape:
+                    self.unsupported("zip_apply operand", e)
+                cargs.append(Sc(other.p))
+            self.call_closure(clo, cargs, e)
+            nv = unref(cell[0])
+            if not isinstance(nv, Sc):
+                self.unsupported("zip_apply element result", e)
+            x.p = nv.v
+            return UNIT
+        if name == "iter" and not rest:
+            return IterV([Sc(x.p)])
+        if name in ("get_unchecked", "get_unchecked_mut") and len(rest) == 2:
+            if name == "get_unchecked_mut":
+                return Ref(MatElem(x), 0)
+            return Sc(x.p)
+        if name == "assume_init" and not rest:
+            if x.p is None:
+                raise PanicEx("assume_init on an uninitialised matrix")
+            return x
+        if name == "value":
+            return Sc(self.dom.named("dim_" + str(x)))
         if name == "shape_generic" and not rest:
             return Tup([DimV(x.shape[0]), DimV(x.shape[1])])
         if name == "shape":
@@ -883,6 +964,8 @@ class Interp:
                 return (base, e["name"])
             if isinstance(base, Tup):
                 return (base, int(e["name"]))
+            if isinstance(base, Mat) and e["name"] == "data":
+                return ([base], 0)
             self.unsupported("field place on %r" % (base,), e)
         if k == "un" and e["op"] == "deref":
             v = self.ev(e["a"], env)
@@ -890,10 +973,16 @@ class Interp:
                 return (v.c, v.k)
             # deref of a shared reference / box: the place of the operand
             return self.place(e["a"], env)
+        if k == "block" and not e["b"]["stmts"] and e["b"].get("tail"):
+            return self.place(e["b"]["tail"], env)
         if k == "index":
             base = unref(self.ev(e["a"], env))
             idx = unref(self.ev(e["b"], env))
             return (IndexPlace(base, idx), 0)
+        if k == "mcall":
+            v = self.ev(e, env)
+            if isinstance(v, Ref):
+                return (v.c, v.k)
         self.unsupported("place expression %s" % k, e)
 
     # ------------------------------------------------------------------ evaluation
@@ -1159,6 +1248,8 @@ class Interp:
             return base.f[e["name"]]
         if isinstance(base, Tup):
             return base.vs[int(e["name"])]
+        if isinstance(base, Mat) and e["name"] == "data":
+            return base
         self.unsupported("field %s of %r" % (e["name"], base), e)
 
     def ev_index(self, e, env):
@@ -1237,7 +1328,7 @@ class Interp:
         if src.startswith("TryDesugar"):
             return self.ev_try(e, env)
         if src.startswith("ForLoopDesugar"):
-            self.unsupported("for loop", e)
+            return self.ev_for(e, env)
         scrut = self.ev(e["scrut"], env)
         for arm in e["arms"]:
             env2 = env
@@ -1247,6 +1338,29 @@ class Interp:
                         continue
                 return self.ev(arm["body"], env2)
         self.unsupported("non-exhaustive match", e)
+
+    def ev_for(self, e, env):
+        """`for pat in range { body }`: only as an element-uniform loop (the body is evaluated once for a symbolic
+        index); enabled by rules that have verified the loop template structurally (C13.3)"""
+        if not getattr(self, "elementwise_loops", False):
+            self.unsupported("for loop", e)
+        try:
+            arm = e["arms"][0]
+            loop = arm["body"]
+            while loop["k"] == "block":
+                loop = loop["b"]["tail"] or loop["b"]["stmts"][-1]["e"]
+            inner = loop["body"]["stmts"][0]["e"] if loop["body"]["stmts"] else loop["body"]["tail"]
+            some_arm = [a for a in inner["arms"]
+                        if (a["pat"]["k"] == "tuplestruct") or (a["pat"]["k"] == "struct" and a["pat"]["fields"])][0]
+            pat = some_arm["pat"]["pats"][0] if some_arm["pat"]["k"] == "tuplestruct" else some_arm["pat"]["fields"][0]["pat"]
+            body = some_arm["body"]
+        except (KeyError, IndexError, TypeError):
+            self.unsupported("for-loop desugaring shape", e)
+        if pat["k"] != "bind":
+            self.unsupported("for-loop pattern", e)
+        env[pat["id"]] = [Sc(self.dom.named("$" + pat["name"]))]
+        self.ev(body, env)
+        return UNIT
 
     def ev_try(self, e, env):
         # match Try::branch(x) { Continue(v) => v, Break(r) => return from_residual(r) }
